@@ -5,7 +5,7 @@ from __future__ import annotations
 
 import ast
 
-from ..astutil import call_attr, calls_in, guard_facts, unparse, walk_local
+from ..astutil import call_attr, calls_in, guard_facts, unparse, walk_local, text_facts
 from ..cfg import CFG
 from ..dataflow import reaching_defs
 from ..report import Finding, Report
@@ -17,6 +17,10 @@ TR = "xdsl/traits.py"
 
 def _returns_none(body: list[ast.stmt]) -> bool:
     return bool(body) and isinstance(body[-1], ast.Return) and (body[-1].value is None or (isinstance(body[-1].value, ast.Constant) and body[-1].value.value is None))
+
+
+def _is_none_return(rt: ast.Return) -> bool:
+    return rt.value is None or (isinstance(rt.value, ast.Constant) and rt.value.value is None)
 
 
 def check_nested(idx: Index, rep: Report) -> None:
@@ -31,28 +35,59 @@ def check_nested(idx: Index, rep: Report) -> None:
     if not lookups:
         raise AnalysisError(f"{f.fq}: per-step lookup not found")
     cur = unparse(lookups[0].args[0])
-    body_ifs = [n for n in w.body if isinstance(n, ast.If)]
-    table_chk = [n for n in body_ifs if "has_trait(traits.SymbolTable" in unparse(n.test) and unparse(n.test).startswith("not ") and cur in unparse(n.test) and _returns_none(n.body)]
-    priv_chk = [n for n in body_ifs if "Visibility.PRIVATE" in unparse(n.test) and "get_symbol_visibility(" in unparse(n.test) and _returns_none(n.body)]
     cfg = CFG(f.node)
-    ok_table = bool(table_chk) and w.body.index(table_chk[0]) < min(w.body.index(s) for s in w.body if any(x is lookups[0] for x in ast.walk(s)))
+    from ..dataflow import resolved_text
+
+    def rfacts(node):
+        out = []
+        for t, pol in guard_facts(f.node, node):
+            try:
+                out.append((resolved_text(cfg, t, cfg.node_of(node)), pol))
+            except AnalysisError:
+                out.append((unparse(t), pol))
+        return out
+
+    # (table) each per-step lookup is control-dependent on the SymbolTable trait of the op it descends into
+    ok_table = all(any(pol and f"{unparse(c.args[0])}.has_trait(traits.SymbolTable" in t for t, pol in rfacts(c)) for c in lookups)
     if ok_table:
         r.ok(f.fq + ":table", f"{f.loc} intermediate op checked for the SymbolTable trait before each descent")
     else:
         r.fail(f.fq + ":table", Finding("C29.R1", f.fq, "descent-without-table-check", "a nested reference is followed into an operation that was not checked to be a symbol table", f.loc))
-    if priv_chk:
-        # the visibility test must concern the op just looked up in this step
-        looked = None
-        for s in w.body:
-            if isinstance(s, ast.Assign) and any(x is lookups[0] for x in ast.walk(s)):
-                looked = unparse(s.targets[0])
-        if looked and f"get_symbol_visibility({looked})" in unparse(priv_chk[0].test) and w.body.index(priv_chk[0]) > [i for i, s in enumerate(w.body) if any(x is lookups[0] for x in ast.walk(s))][0]:
-            r.ok(f.fq + ":private", f"{f.loc} private symbols refused at every nested step")
-        else:
-            r.fail(f.fq + ":private", Finding("C29.R1", f.fq, "private-check-wrong-op", "the visibility test inside the loop does not concern the symbol found at this step", f.loc))
+    # (private) inside the loop, a `return None` is taken when the symbol found at this step is private
+    looked = None
+    for s_ in walk_local(w):
+        if isinstance(s_, ast.Assign) and any(x is lookups[0] for x in ast.walk(s_)) and isinstance(s_.targets[0], ast.Name):
+            looked = s_.targets[0].id
+    if looked is None:
+        raise AnalysisError(f"{f.fq}: the symbol found at each step is not bound to a name")
+    lk_fn = unparse(lookups[0].func)
+
+    def priv_test(t: str) -> bool | None:
+        """True: `<looked> is PRIVATE`; False: `<looked> is not PRIVATE`; None: not a visibility test of the step's symbol"""
+        import re as _re
+
+        m = _re.fullmatch(r"SymbolTable\.get_symbol_visibility\((.+)\) (is not|is|==|!=) Visibility\.PRIVATE", t)
+        if not m or not (m.group(1) == looked or m.group(1).startswith(lk_fn + "(")):
+            return None
+        return m.group(2) in ("is", "==")
+
+    PRIV = (f"SymbolTable.get_symbol_visibility({looked}) is Visibility.PRIVATE", f"SymbolTable.get_symbol_visibility({looked}) == Visibility.PRIVATE")
+    in_loop = any(_is_none_return(rt) and any(priv_test(t) is not None and priv_test(t) == pol for t, pol in rfacts(rt)) for rt in [n for n in walk_local(w) if isinstance(n, ast.Return)])
+    # disjunction form: `if x is None or <private>: return None`
+    if not in_loop:
+        for rt in [n for n in walk_local(w) if isinstance(n, ast.Return) and _is_none_return(n)]:
+            for t, pol in guard_facts(f.node, rt):
+                if pol and isinstance(t, ast.BoolOp) and isinstance(t.op, ast.Or) and any(unparse(d) in PRIV for d in t.values):
+                    in_loop = True
+    if in_loop:
+        r.ok(f.fq + ":private", f"{f.loc} private symbols refused at every nested step")
     else:
-        outside = [n for n in walk_local(f.node) if isinstance(n, ast.If) and "Visibility.PRIVATE" in unparse(n.test) and n not in w.body]
-        r.fail(f.fq + ":private", Finding("C29.R1", f.fq, "private-check-not-per-step", "private visibility is " + ("tested only once after the loop (on the leaf)" if outside else "not tested") + ": `@outer::@hidden::@leaf` resolves through a private intermediate table", f.loc))
+        anywhere = [n for n in walk_local(f.node) if isinstance(n, (ast.If, ast.Assign)) and "Visibility.PRIVATE" in unparse(n) and not any(x is n for x in ast.walk(w))]
+        wrong = [n for n in walk_local(w) if "Visibility.PRIVATE" in (unparse(n) if isinstance(n, (ast.If, ast.Assign)) else "")]
+        if wrong:
+            r.fail(f.fq + ":private", Finding("C29.R1", f.fq, "private-check-wrong-op", "the visibility test inside the loop does not concern the symbol found at this step", f.loc))
+        else:
+            r.fail(f.fq + ":private", Finding("C29.R1", f.fq, "private-check-not-per-step", "private visibility is " + ("tested only once after the loop (on the leaf)" if anywhere else "not tested") + ": `@outer::@hidden::@leaf` resolves through a private intermediate table", f.loc))
     # (b) the trait's own resolver
     g = idx.func(TR, "SymbolTable.lookup_symbol")
     delegates = any(call_attr(c) in ("_lookup_symbol_ref_in", "lookup_symbol_in", "lookup_nearest_symbol_from") for c in calls_in(g.node))
@@ -64,7 +99,7 @@ def check_nested(idx: Index, rep: Report) -> None:
     else:
         for c in rec:
             o = unparse(c.args[0])
-            facts = [(unparse(t), p) for t, p in guard_facts(g.node, c)]
+            facts = text_facts(g.node, c)
             has_table = any(p and f"{o}.has_trait(SymbolTable" in t for t, p in facts)
             has_priv = any("PRIVATE" in t or "sym_visibility" in t or "get_symbol_visibility" in t for t, p in facts)
             if has_table:
